@@ -443,6 +443,15 @@ def judge(prep, inputs_json: dict, timeout: float, excl=()) -> dict:
                 object.__setattr__(inputs["self"], an_, _shield)
             except Exception:
                 pass
+    # Assumed module-level functions whose contract defines the result as uf_str('tag', ...): replays use the registered
+    # run-time reading of that tag (rebuilt objects carry no real certificate / key material to compute the real one on).
+    import re as _re
+    from pyvc.contracts import RUNTIME_FNS as _RF
+    for q_, tc_ in reg.contracts.items():
+        if tc_.trusted and q_.startswith(mod.__name__ + ":") and "." not in q_.split(":")[1]:
+            m_ = _re.search(r"result == uf_str\('([^']+)'", " ".join(tc_.ensures))
+            if m_ and m_.group(1) in _RF and hasattr(mod, q_.split(":")[1]):
+                setattr(mod, q_.split(":")[1], (lambda *a, _f=_RF[m_.group(1)], **kw: _f(*a, **kw)))
     # at_call clauses: judged at every call of the named callee made from the unit's own frame, with the caller's locals
     # and the callee's parameters (bound to the actual arguments) in scope - the run-time reading of the prover's obligations
     at_call_viol = []
